@@ -20,6 +20,7 @@ package main
 
 import (
 	"fmt"
+	"go/constant"
 	"go/token"
 	"go/types"
 	"os"
@@ -184,8 +185,9 @@ func (q *srcQuery) walk(v ssa.Value, path []int, facts []Fact, alias []ssa.Value
 		q.leaf(srcLeaf{val: v, facts: facts, alias: alias, where: where, frames: frames})
 		return
 	}
-	if len(path) == 0 {
-		if r := w.resolveLoad(v); r != v {
+	if _, isParam := v.(*ssa.Parameter); len(path) == 0 && !isParam {
+		// (parameters are followed below, so that the frame they belong to is popped)
+		if r := w.resolveLoadLocal(v); r != v {
 			alias = addAlias(alias, v)
 			v = r
 		}
@@ -414,12 +416,30 @@ func (q *srcQuery) constOf(v ssa.Value, frames []srcFrame, ctx []Fact) (*ssa.Con
 	}
 	sub := &srcQuery{w: q.w, stop: q.stop, complete: true, budget: 300, seenPhi: map[*ssa.Phi]bool{}, noRefute: true}
 	sub.walk(v, nil, ctx, nil, frames, "-", 0)
+	if os.Getenv("TURNCHECK_SRCDEBUG") != "" {
+		fmt.Fprintf(os.Stderr, "  constOf %s frames=%d: complete=%v leaves=%d\n", q.w.key(v), len(frames), sub.complete, len(sub.out))
+		for _, l := range sub.out {
+			fmt.Fprintf(os.Stderr, "     leaf %s (%T) frames=%d\n", q.w.key(l.val), l.val, len(l.frames))
+		}
+	}
 	if !sub.complete || sub.budget <= 0 || len(sub.out) == 0 {
 		return nil, false
 	}
 	var c0 *ssa.Const
-	for _, l := range sub.out {
+	for i := range sub.out {
+		l := &sub.out[i]
 		c, ok := l.val.(*ssa.Const)
+		if !ok && len(l.sel) == 0 && l.mem == nil {
+			// a comparison of values that are themselves constant in this context
+			if bo, isBO := l.val.(*ssa.BinOp); isBO && (bo.Op == token.EQL || bo.Op == token.NEQ) {
+				if cx, okx := q.constOf(bo.X, l.frames, l.facts); okx {
+					if cy, oky := q.constOf(bo.Y, l.frames, l.facts); oky {
+						eq := constEqual(cx, cy)
+						c, ok = ssa.NewConst(constant.MakeBool(eq == (bo.Op == token.EQL)), types.Typ[types.Bool]), true
+					}
+				}
+			}
+		}
 		if !ok || len(l.sel) > 0 || l.mem != nil {
 			return nil, false
 		}
